@@ -8,7 +8,8 @@ EXPLANATION = ("Who-may-call inventory of the global allocator over all compiled
                "acquired with what is recorded in the footer (data/layout terms identical to the alloc call's result/argument) and of what is released with what was recorded "
                "(dealloc(load f.data, load f.layout) of one footer f); releaser loop discipline (sentinel excluded by the is_empty false edge at every dealloc, next link read before "
                "the block is freed, nothing dereferenced after); callers of the releaser (Drop for Bump on every path with the current chunk; &mut self methods that first detach what "
-               "they free with prev.replace(EMPTY)); no path on which a successfully acquired chunk is neither published nor returned; no destructor call reachable from reset/drop.")
+               "they free with prev.replace(EMPTY)); no path on which a successfully acquired chunk is neither published nor returned; no destructor call reachable from reset/drop."
+               ' (R7) the list head only moves to a chunk acquired in the same call; (R8) no panic site is reachable between a successful acquisition and the publication of the chunk.')
 RULE = "rule instance = (rule, function, call/store site); distinct by (rule, function, site)"
 
 
